@@ -164,4 +164,66 @@ def reaperIters (cfg : Cfg) : Nat → Nat → Nat → List Nat
     if due cfg k then (i + 1) :: reaperIters cfg n 1 (i + 1)
     else reaperIters cfg n (k + 1) (i + 1)
 
+/-! ## Piece level: `TcpConnection.queue` / `flush` on the list of queued piece lengths
+
+The trace model above takes "how many pieces were queued" and "did the flush finish
+the head piece" as inputs.  This layer computes both from the lengths of the queued
+pieces (a piece may be **empty**) and from what the socket's `send()` did. -/
+
+/-- `max_send_size or DEFAULT_MAX_SEND_SIZE` -/
+def effMax (maxSend : Nat) : Nat := if maxSend = 0 then Px.Gen.defaultMaxSendSize else maxSend
+
+/-- `TcpConnection.flush(max_send_size)` on the queued piece lengths.
+    `acc = none`   : `send()` raised `BlockingIOError` (nothing changes);
+    `acc = some a` : `send(mv[:max])` took `min a (len of the slice)` bytes.
+    The head piece is popped iff `sent == len(mv)` — for an empty piece that is `0 == 0`. -/
+def flushPieces (maxSend : Nat) (acc : Option Nat) : List Nat → List Nat
+  | [] => []
+  | p :: r =>
+    match acc with
+    | none => p :: r
+    | some a =>
+      let sent := min a (min p (effMax maxSend))
+      if sent = p then r else (p - sent) :: r
+
+/-- events with piece lengths instead of counts / flags -/
+inductive PEv where
+  | clientRead (t : Int) (lens : List Nat)     -- handling the data queued pieces of these lengths
+  | clientReadEnd (t : Int)
+  | clientWrite (t : Int) (acc : Option Nat)   -- writable report; what `send()` would accept
+  | upstream (t : Int) (lens : List Nat)
+  | loopIter (t : Int)
+  deriving Repr, DecidableEq
+
+structure PSt where
+  st : St
+  /-- lengths of the memoryviews in `TcpConnection.buffer` of the client connection -/
+  pieces : List Nat
+  deriving Repr, DecidableEq
+
+def pinit (t0 : Int) : PSt := { st := init t0, pieces := [] }
+
+/-- the trace-model event a piece-level event amounts to in state `ps` -/
+def PEv.toEv (maxSend : Nat) (ps : PSt) : PEv → Ev
+  | .clientRead t lens => .clientRead t lens.length
+  | .clientReadEnd t => .clientReadEnd t
+  | .clientWrite t acc =>
+    .clientWrite t (decide ((flushPieces maxSend acc ps.pieces).length < ps.pieces.length))
+  | .upstream t lens => .upstream t lens.length
+  | .loopIter t => .loopIter t
+
+def pstep (cfg : Cfg) (maxSend : Nat) (ps : PSt) (e : PEv) : PSt :=
+  { st := step cfg ps.st (e.toEv maxSend ps),
+    pieces :=
+      match ps.st.status with
+      | .open =>
+        match e with
+        | .clientRead _ lens => if ps.st.readsTorn then ps.pieces else ps.pieces ++ lens
+        | .upstream _ lens => ps.pieces ++ lens
+        | .clientWrite _ acc => flushPieces maxSend acc ps.pieces
+        | _ => ps.pieces
+      | _ => ps.pieces }
+
+def prun (cfg : Cfg) (maxSend : Nat) (ps : PSt) (tr : List PEv) : PSt := tr.foldl (pstep cfg maxSend) ps
+
 end Px.Idle
